@@ -53,16 +53,16 @@ end CBuf
 /-- the `mutable` members (lgmres.hpp:433-440) -/
 structure Work (K : Type) where
   h     : Hess K
-  H0    : Nat → Nat → K
+  H0    : FArr2 K
   r     : Vec K
-  vs    : Nat → Vec K
-  wsp   : Nat → Ptr
-  odata : Nat → Vec K
+  vs    : FArr (Vec K)
+  wsp   : FArr Ptr
+  odata : FArr (Vec K)
   ov    : CBuf
 
 def Work.fresh {K : Type} [Zero K] (n : Nat) : Work K :=
-  { h := Hess.fresh, H0 := fun _ _ => 0, r := Array.replicate n 0, vs := fun _ => Array.replicate n 0,
-    wsp := fun _ => .null, odata := fun _ => Array.replicate n 0, ov := .empty }
+  { h := Hess.fresh, H0 := .const 0, r := Array.replicate n 0, vs := .const (Array.replicate n 0),
+    wsp := .const .null, odata := .const (Array.replicate n 0), ov := .empty }
 
 /-- `lgmres::params`: the common fields + `M`, `K`, `always_reset`, `pside` -/
 structure Params (K : Type) extends Amgcl.Solver.Params K where
@@ -132,7 +132,7 @@ def step (side : Side) (MM cap : Nat) (ip : Vec K → Vec K → K) (sqrt : K →
   let wsp := setF w.wsp j z                                       -- ws[j] = z;
   let xt := pspmv side P A (deref w z) (w.vs (j + 1)) w.r         -- preconditioner::spmv(pside, P, A, *z, v_new, *r);
   let o := orth ip sqrt w.vs j w.h.H xt.1                         -- H0(k,j) = H(k,j) = …; H0(j+1,j) = H(j+1,j) = norm(v_new);
-  let H0 := fun a b => if b = j ∧ a ≤ j + 1 then o.1 a b else w.H0 a b
+  let H0 : FArr2 K := ⟨fun a b => if b = j ∧ a ≤ j + 1 then o.1 a b else w.H0 a b⟩
   let rt := rotate sqrt j w.h o.1
   { j := j + 1, iter := t.iter + 1, innerRes := rt.2,
     w := { w with h := rt.1, H0 := H0, r := xt.2, vs := setF w.vs (j + 1) o.2, wsp := wsp } }
@@ -154,7 +154,7 @@ def cycle (prm : Params K) (ip : Vec K → Vec K → K) (sqrt : K → K) (A : CR
   let s := backSubst t.j t.w.h.H t.w.h.s
   let w1 : Work K := { t.w with h := { t.w.h with s := s } }
   -- vector &dx = *r; backend::lin_comb(j, s, ws, zero, dx);
-  let dx := linComb (combList t.j s (fun i => deref w1 (w1.wsp i))) 0 w1.r
+  let dx := linComb (combList t.j s.get (fun i => deref w1 (w1.wsp i))) 0 w1.r
   let w2 : Work K := { w1 with r := dx }
   let xw : Vec K × Work K := match prm.pside with
     | .left => (axpby 1 dx 1 st.x, w2)                      -- backend::axpby(one, dx, one, x);
